@@ -155,7 +155,10 @@ def amplifier(rng):
         return rng.choice([b'|\n|-\n', b'||\n|-|\n', b'|a\n-|\n', b'a|b\n-|-\n||\n', b'|a||\n|-|-|\n|b||\n', b'| a | b |\n|:-:|-:|\n| c ||\n\n[cap]\n', b'|a|\n|-|\n\n|b|\n|-|\n',
                            b'[c][l]\n|a|\n|-|\n', b'|a|\n|-|\n[c][l]', b'|' * 200 + b'\n' + b'|-' * 100 + b'\n', b'|a|\n|' + b'-|' * 60 + b'\n'])
     if k == 11:     # definition list edge cases
-        return rng.choice([b'a\n: b\n', b': b\n', b'a\n\n: b\n\n    c\n', b'a\n: \n', b'a\n:b\n', b'a\n: b\n: c\nd\n: e\n', b'a\n\n:\n'])
+        return rng.choice([b'a\n: b\n', b': b\n', b'a\n\n: b\n\n    c\n', b'a\n: \n', b'a\n:b\n', b'a\n: b\n: c\nd\n: e\n', b'a\n\n:\n',
+                           # a definition that is dissolved again (its term is an indented line): what was parsed inside it -- a heading, a table -- goes with it
+                           b'    Term\n: def H2\n    ------\n\nend\n', b'    Term\n: # Head #\n\nend\n', b'    Term\n: | a | b |\n    |---|---|\n    | c | d |\n\nend\n',
+                           b'    Term\n: def H1\n    ======\n\n[def H1][] {{TOC}}\n', b'\tT\n: x\n\t---\n: y\n\t===\n'])
     if k == 12:     # TOC / variables
         return rng.choice([b'{{TOC}}\n', b'{{TOC:}}\n', b'{{TOC:9}}\n\n# a\n', b'{{TOC:2-1}}\n# a\n## b\n', b'# a\n{{TOC}}\n# b\n{{TOC:1-2}}\n', b'{{TOC:3-}}', b'[%]', b'[%a', b'x: y\n\n[%x][%x]\n'])
     if k == 13:     # critic markup edges
